@@ -68,6 +68,11 @@ def refute_variants(ctx: Ctx, rep: Report) -> None:
 
 
 # ---- generation ---------------------------------------------------------------------------------------------
+def show_time(q: dict):
+    v = q["o"] if not q.get("e") else f"{q['o']}+{q['e']}eps"
+    return v if q["b"] == 0 else f"tau{q['b']}+{v}"
+
+
 def hist_key(h: list) -> str:
     return json.dumps([s["op"] for s in h], sort_keys=True)
 
@@ -76,17 +81,17 @@ def generate(ctx: Ctx, rep: Report) -> list:
     jobs = []
     if ctx.quick:
         jobs.append(("exh", "Simulator.tla", "Simulator_depth2.cfg", {},
-                     "all call histories of depth 2 over the 23-operation menu; 7 invariants at every state"))
+                     "all call histories of depth 2 over the 27-operation menu; 7 invariants at every state"))
         jobs.append(("exh3s", "Simulator.tla", "Simulator_depth3s.cfg", {},
-                     "all call histories of depth 3 over the reduced 12-operation menu; 7 invariants at every state"))
+                     "all call histories of depth 3 over the reduced 14-operation menu; 7 invariants at every state"))
         jobs.append(("deep", "Simulator.tla", "Simulator_deep.cfg",
                      dict(simulate="num=4", depth=9, seed=ctx.seed, workers=8),
                      "seeded -simulate behaviours of depth 8 (and the siblings of their last call)"))
     else:
         jobs.append(("exh", "Simulator.tla", "Simulator_depth3.cfg", {},
-                     "all call histories of depth 3 over the 23-operation menu; 7 invariants at every state"))
+                     "all call histories of depth 3 over the 27-operation menu; 7 invariants at every state"))
         jobs.append(("exh4", "Simulator.tla", "Simulator_depth4.cfg", {},
-                     "all call histories of depth 4 over the reduced 12-operation menu; 7 invariants at every state"))
+                     "all call histories of depth 4 over the reduced 14-operation menu; 7 invariants at every state"))
         jobs.append(("deep", "Simulator.tla", "Simulator_deep.cfg",
                      dict(simulate="num=60", depth=9, seed=ctx.seed, workers=8),
                      "seeded -simulate behaviours of depth 8 (and the siblings of their last call)"))
@@ -136,8 +141,24 @@ def nontrivial(h: list) -> bool:
     return False
 
 
+def read_then_continue(h: list) -> bool:
+    """result-producing call, then the views are read, then a continuation"""
+    have = read = False
+    for s in h:
+        k = s["op"]["k"]
+        if k == "clear":
+            have = read = False
+        elif k == "read" and have:
+            read = True
+        elif k in simkit.ADVANCING + ("ss",) and not s["raised"]:
+            if read:
+                return True
+            have = True
+    return False
+
+
 def _replay(h):
-    return simkit.replay_history(h)
+    return simkit.replay_renderings(h)
 
 
 def selftest_replayer(hs: list, seed: int) -> int:
@@ -174,8 +195,14 @@ class _Flat:
 
     bases = {0: 0.0}
 
+    def __init__(self, r):
+        self.r = r
+
     def t(self, tm):
-        return tm["o"] * simkit.TS
+        return tm["o"] * self.r.ts + tm.get("e", 0) * self.r.eps
+
+    def enc(self, v):
+        return (v // 1000) * self.r.ts + (v % 1000) * self.r.eps
 
 
 def corrupt(trace: dict, rnd: random.Random) -> dict | None:
@@ -229,7 +256,7 @@ def trace_direction(ctx: Ctx, rep: Report, prop: str, n: int, length: int, weigh
     ongrid = [t for t in traces if not t["offgrid"]]
     for t in traces:
         if t["offgrid"]:
-            scn = {"trace": t["ev"], "seed": t["seed"]}
+            scn = {"trace": t["ev"], "seed": t["seed"], "rendering": t["rendering"]}
             det = {"what": "trace", "step": len(t["ev"]) - 1, "observed": t["offgrid"]}
             rep.mismatch(scn, det, simkit.classify([{"op": e["op"]} for e in t["ev"]], det))
     verdicts = validate_traces(ctx, rep, ongrid, tag)
@@ -244,7 +271,7 @@ def trace_direction(ctx: Ctx, rep: Report, prop: str, n: int, length: int, weigh
             rep.distinct.add("trace:" + json.dumps([e["op"] for e in t["ev"]], sort_keys=True))
         if not v["accepted"]:
             j = v["matched"]
-            scn = {"trace": t["ev"][:j + 1], "seed": t["seed"]}
+            scn = {"trace": t["ev"][:j + 1], "seed": t["seed"], "rendering": t["rendering"]}
             det = {"what": "trace", "step": j, "matched_events": j,
                    "rejected_event": t["ev"][j] if j < len(t["ev"]) else None}
             rep.mismatch(scn, det, simkit.classify(steps, det))
@@ -253,19 +280,24 @@ def trace_direction(ctx: Ctx, rep: Report, prop: str, n: int, length: int, weigh
         st = v["st"]
         obs = []
         last = t["ev"][-1]["segs"] if t["ev"] else []
+        flat = _Flat(simkit.RENDERINGS[t["rendering"]])
         for seg, xs in zip(last, t["values"]):
-            obs.append({"t": [o * simkit.TS for o in seg["times"]], "x": xs,
-                        "p": {"kin": seg["kin"] * simkit.PS, "k": seg["kk"] * simkit.PS}})
-        bad = simkit.compare(_Flat(), st, obs if obs else None)
+            obs.append({"t": [flat.enc(o) for o in seg["times"]], "x": xs,
+                        "p": {"kin": seg["kin"] * flat.r.ps, "k": seg["kk"] * flat.r.ps}})
+        bad = simkit.compare(flat, st, obs if obs else None)
         if bad:
             det = {**bad, "step": len(t["ev"]) - 1}
-            rep.mismatch({"trace": t["ev"], "seed": t["seed"]}, det, simkit.classify(steps, det))
+            rep.mismatch({"trace": t["ev"], "seed": t["seed"], "rendering": t["rendering"]}, det,
+                         simkit.classify(steps, det))
             continue
         n_acc += 1
         rep.traces += 1
     rep.notes[f"trace_calls_{tag}(kind,raised)"] = {f"{k}/{'refused' if r else 'accepted'}": c
                                                      for (k, r), c in sorted(kinds.items())}
-    if any(kinds[(k, False)] == 0 for k in ("sim", "tc", "proto", "ptc", "upd", "ov")) or \
+    rep.notes[f"traces_{tag}_by_rendering"] = dict(collections.Counter(t["rendering"] for t in ongrid))
+    rep.notes[f"traces_{tag}_reading_views_between_calls"] = sum(
+        1 for t in ongrid if any(e["vread"] and e["op"]["k"] in simkit.ADVANCING for e in t["ev"]))
+    if any(kinds[(k, False)] == 0 for k in ("sim", "tc", "proto", "ptc", "upd", "ov", "read")) or \
             any(kinds[(k, True)] == 0 for k in ("sim", "tc")):
         raise MachineryError(f"random driver ({tag}) does not exercise all calls: {dict(kinds)}")
     # binding teeth, code -> spec: corrupted copies of accepted traces must be rejected
@@ -357,6 +389,12 @@ def run(ctx: Ctx) -> int:
     outs = pmap(_replay, hs, chunk=32)
     worst = 0.0
     nvals = 0
+    rep.notes["histories_with_a_point_just_after_a_boundary"] = sum(1 for h in hs if simkit.has_eps(h))
+    rep.notes["histories_also_replayed_at_large_absolute_times"] = sum(1 for _, st in outs if st.get("large"))
+    rep.notes["histories_reading_views_before_a_continuation"] = sum(1 for h in hs if read_then_continue(h))
+    if min(rep.notes["histories_with_a_point_just_after_a_boundary"],
+           rep.notes["histories_reading_views_before_a_continuation"]) == 0:
+        raise MachineryError("vacuity: no history with an epsilon point / a read between continuations")
     for h, (bad, stats) in zip(hs, outs):
         rep.replayed += 1
         rep.evaluations += 1
@@ -372,8 +410,7 @@ def run(ctx: Ctx) -> int:
     rep.notes["fragile_cases_excluded"] = 0
     for h in hs[:: max(1, len(hs) // 3)][:3]:
         rep.sample({"calls": [s["op"] for s in h], "refused": [s["raised"] for s in h],
-                    "predicted_index_ticks": [[q["o"] if q["b"] == 0 else f"tau{q['b']}+{q['o']}" for q in g["times"]]
-                                              for g in h[-1]["st"]["segs"]]})
+                    "predicted_index_ticks": [[show_time(q) for q in g["times"]] for g in h[-1]["st"]["segs"]]})
     trace_direction(ctx, rep, PROP, 600 if ctx.quick else 12000, 8 if ctx.quick else 10, None, "driver")
     repo_tests_direction(ctx, rep)
     return rep.finish()
@@ -394,7 +431,8 @@ def replay(ctx: Ctx, doc: dict) -> int:
         print(json.dumps({"test": scn["test"], "disagreement": bad}, indent=1))
     else:
         # a recorded trace: run the same calls again on the current tree and have TLC judge the new recording
-        t = simkit.record_trace(scn.get("seed", "replay"), 0, None, ops=[e["op"] for e in scn["trace"]])
+        t = simkit.record_trace(scn.get("seed", "replay"), 0, None, ops=[e["op"] for e in scn["trace"]],
+                                rendering=scn.get("rendering", "small"))
         rep = Report(ctx)
         v = validate_traces(ctx, rep, [t], "replay")[0] if not t["offgrid"] else {"accepted": False, "matched": len(t["ev"]) - 1}
         bad = None if v["accepted"] else {"what": "trace", "matched_events": v["matched"], "offgrid": t["offgrid"]}
